@@ -168,6 +168,14 @@ def views_of(fn, roots):
                 src = rv["place"]
             elif rv["k"] == "cast" and rv["x"].get("k") in ("copy", "move"):
                 src = rv["x"]
+            elif rv["k"] == "agg" and rv.get("agg") in ("closure", "tuple"):
+                # a closure environment / tuple holding a view carries it (its fields are read back as
+                # `(env.i)` in the folded-in closure body)
+                held = [o for o in rv["ops"] if o.get("k") in ("copy", "move") and o["l"] in views and not o["p"]]
+                if held and dst["l"] not in views:
+                    views[dst["l"]] = any(views[o["l"]] for o in held)
+                    changed = True
+                continue
             if src is None or src["l"] not in views:
                 continue
             for pe in src["p"]:
@@ -228,6 +236,11 @@ class Clean:
             s.dirty_on_err = True
             return s
         self.stack.add(key)
+        # analysed with closures of std combinators / callable values folded in (cleanup written as
+        # `.map_err(|e| { out.zeroize(); e })` is cleanup); named helpers stay calls with their own summaries
+        if fn.prog is not None and not getattr(fn, "inlined", None) and fn.kind != "closure":
+            from .inline import inline
+            fn = inline(fn.prog, fn, pick=lambda call, t: False)
         s = self._analyse(fn, param)
         self.stack.discard(key)
         self.memo[key] = s
